@@ -49,6 +49,7 @@ fn table(prop: &str) -> Option<(CountFn, GenFn, RunFn)> {
         "C12" => (c12::count, c12::gen, c12::run),
         "C13" => (c13::count, c13::gen, c13::run),
         "C14" => (c14::count, c14::gen, c14::run),
+        "C14B" => (c14::count_b, c14::gen_b, c14::run_b),
         "C15" => (c15::count, c15::gen, c15::run),
         "C16" => (c16::count, c16::gen, c16::run),
         _ => return None,
